@@ -161,6 +161,11 @@ def judge(ctx, case):
             routes['pack-kwval'] = lambda: pack(f'bits:{n}=x', x=pv)
             routes['token'] = lambda: cls(f'bits:{n}={sv}')
             routes['Array'] = lambda: Array(f'bits{n}', [pv]).data
+            # the value given as an iterable of arbitrary objects, each standing for bool(item); as a list and as iterators that can be walked once only
+            routes['kw-truthy-list'] = lambda: cls(bits=util.truthy_items(v))
+            routes['kw-one-shot-iterable'] = lambda: cls(bits=iter(util.truthy_items(v)))
+            routes['prop-one-shot-iterable'] = lambda: _assign(mcls(), 'bits', (x for x in util.truthy_items(v)))
+            routes['build-one-shot-iterable'] = lambda: Dtype('bits', n).build(map(lambda x: x, util.truthy_items(v)))
         else:
             routes['kw+length'] = lambda: cls(**{name: pv, 'length': n})
             routes['kw-len-in-name'] = lambda: cls(**{f'{name}{n}': pv})
@@ -323,6 +328,23 @@ def _nclass(n):
     return 'n1' if n == 1 else 'n<8' if n < 8 else 'n%8=0' if n % 8 == 0 else 'n>8' if n < 64 else 'n>=64'
 
 
+def _flip0(m):
+    m[0] = not m[0]
+
+
+READ_HISTORY = [('reverse', lambda m: m.reverse()), ('invert', lambda m: m.invert()), ('ror', lambda m: m.ror(1)), ('setitem', _flip0),
+                ('invert-last', lambda m: m.invert(-1)), ('rol', lambda m: m.rol(3)), ('set-all', lambda m: m.set(1)),
+                ('reverse-under-lsb0', lambda m: _under_lsb0(m.reverse)), ('setitem-under-lsb0', lambda m: _under_lsb0(lambda: _flip0(m))),
+                ('ixor', lambda m: m.__ixor__(~Bits(len(m)))), ('ilshift', lambda m: m.__ilshift__(1)), ('overwrite', lambda m: m.overwrite('0b1', 0)),
+                ('byteswap', lambda m: m.byteswap() if len(m) % 8 == 0 else m.invert(0)), ('setslice', lambda m: m.__setitem__(slice(0, 1), '0b1')),
+                ('prop-assign', lambda m: setattr(m, 'bin', '1' * len(m)))]
+
+
+def _under_lsb0(f):
+    with util.options(lsb0=True):
+        return f()
+
+
 def judge_pattern(ctx, case):
     """interpret any bit pattern of a valid length and rebuild from the result -> the pattern (NaN payloads excepted)"""
     name, pat = case['name'], case['pattern']
@@ -356,6 +378,36 @@ def judge_pattern(ctx, case):
             ctx.ok((name, _nclass(n), 'pattern'), '1' in pat)
         else:
             ctx.mismatch(f'C02|pattern-roundtrip|{fam}|rebuild', case, f'{name}: {pat[:60]} -> {v!r:.40} -> {(B(back[1]) if back[0] == "ok" else back[1])!s:.60}')
+        # what every reading route returns is the interpretation of the bits the object holds NOW: a mutable object that was read,
+        # changed in place (same length) and read again
+        hsel = (hash(pat) ^ n) % len(READ_HISTORY)
+        for mcls in (BitArray, BitStream) if n <= 512 else ():
+            m = mk(mcls, pat)
+            call(lambda: (getattr(m, name), m.tobytes()))
+            for step in range(2):
+                how, f = READ_HISTORY[(hsel + step * 3) % len(READ_HISTORY)]
+                g = call(lambda: f(m))
+                now = call(lambda: B(m))
+                if g[0] != 'ok' or now[0] != 'ok' or len(now[1]) != n:
+                    break
+                expv = K.decode(c, now[1])
+                tok = f'{name}:{units}' if fam != 'bool' else 'bool'
+                dt = Dtype(name, units) if fam != 'bool' else Dtype('bool')
+                reads = {'prop': lambda: getattr(m, name), 'Dtype.parse': lambda: dt.parse(m), 'unpack-sized': lambda: m.unpack(tok)[0],
+                         'read': lambda: ConstBitStream(m).read(tok)}
+                if fam != 'bool':
+                    reads['prop+len'] = lambda: getattr(m, f'{name}{units}')
+                if fam == 'bits':
+                    reads['prop'] = lambda: m.bits
+                ctx.op('read-after-in-place-change:' + how)
+                for rname, rf in reads.items():
+                    got = call(rf)
+                    if got[0] == 'ok' and K.same_value(got[1], expv) and _same_type(got[1], expv):
+                        ctx.ok((name, _nclass(n), 'read-after-change:' + rname), True)
+                    else:
+                        shape = 'unexpected-exc:' + type(got[1]).__name__ if got[0] == 'exc' else 'value'
+                        ctx.mismatch(f'C02|read-after-in-place-change:{rname}|{fam}|{shape}', case,
+                                     f'{name} after {how}: bits {now[1][:60]}: got {got[1]!r:.60} expected {expv!r:.60}')
 
 
 def run(ctx):
